@@ -36,7 +36,7 @@ FindST(bs, i) ==
   ELSE IF bs[i] = ESC THEN <<0, 0>>
   ELSE FindST(bs, i + 1)
 
-Bad == [t |-> "bad", p |-> <<>>, n |-> <<>>, f |-> 0]
+BadItem == [t |-> "bad", p |-> <<>>, n |-> <<>>, f |-> 0]
 Item(t, p, n, f) == [t |-> t, p |-> p, n |-> n, f |-> f]
 
 \* parse: sequence of items; t in csi/esc/osc/dcs/apc/txt/c0/bad
@@ -46,23 +46,23 @@ Parse(bs, i) ==
   IF i > Len(bs) THEN <<>>
   ELSE LET b == bs[i] IN
   IF b = ESC THEN
-     IF i + 1 > Len(bs) THEN <<Bad>>
+     IF i + 1 > Len(bs) THEN <<BadItem>>
      ELSE LET c == bs[i+1] IN
        IF c = 91 THEN \* CSI
           LET j == ScanParam(bs, i + 2)
               k == ScanInter(bs, j)
           IN IF k <= Len(bs) /\ IsFinal(bs[k])
              THEN <<Item("csi", SubSeq(bs, i + 2, j - 1), SubSeq(bs, j, k - 1), bs[k])>> \o Parse(bs, k + 1)
-             ELSE <<Bad>>
+             ELSE <<BadItem>>
        ELSE IF c \in {93, 80, 95} THEN \* OSC ] , DCS P , APC _
           LET st == FindST(bs, i + 2) IN
-          IF st[2] = 0 THEN <<Bad>>
+          IF st[2] = 0 THEN <<BadItem>>
           ELSE <<Item(IF c = 93 THEN "osc" ELSE IF c = 80 THEN "dcs" ELSE "apc", SubSeq(bs, i + 2, st[1]), <<>>, 0)>> \o Parse(bs, st[2])
        ELSE IF c >= 48 /\ c <= 126 THEN <<Item("esc", <<>>, <<>>, c)>> \o Parse(bs, i + 2)
-       ELSE <<Bad>>
+       ELSE <<BadItem>>
   ELSE IF b < 32 \/ b = 127 THEN <<Item("c0", <<>>, <<>>, b)>> \o Parse(bs, i + 1)
   ELSE LET n == Utf8Len(b) IN
-       IF n = 0 \/ i + n - 1 > Len(bs) THEN <<Bad>>
+       IF n = 0 \/ i + n - 1 > Len(bs) THEN <<BadItem>>
        ELSE <<Item("txt", <<>>, <<>>, Utf8CP(bs, i, n))>> \o Parse(bs, i + n)
 
 \* ---------- parameters ----------
